@@ -5,6 +5,7 @@ import Mathlib.Tactic.Ring
 import Mathlib.Tactic.Linarith
 import Mathlib.Tactic.NormNum
 import Mathlib.Tactic.Positivity
+import Mathlib.Data.Nat.Bitwise
 namespace Mpir.Conv
 open Mpir
 
@@ -645,5 +646,263 @@ theorem shiftZ_floor (v : Nat) (k : Int) :
   constructor
   · exact Nat.div_mul_le_self v P
   · have := Nat.lt_mul_div_succ v p; rw [Nat.mul_comm]; exact this
+
+/-! ### __gmp_extract_double -/
+
+theorem and_highbit (x : Nat) (h : x < 2 ^ 64) : (x &&& 2 ^ 63 = 0) ↔ x < 2 ^ 63 := by
+  rw [Nat.and_two_pow, Nat.testBit_eq_decide_div_mod_eq]
+  by_cases c : x / 2 ^ 63 % 2 = 1
+  · simp only [c, decide_true, Bool.toNat_true]; omega
+  · simp only [c, decide_false, Bool.toNat_false]; omega
+
+theorem bitlen_mul_pow {x : Nat} (hx : x ≠ 0) (k : Nat) : bitlen (x * 2 ^ k) = bitlen x + k := by
+  obtain ⟨l, u⟩ := bitlen_bounds hx
+  have hb : 1 ≤ bitlen x := by rw [bitlen_pos hx]; omega
+  have : bitlen (x * 2 ^ k) = (bitlen x - 1 + k) + 1 := by
+    apply bitlen_eq
+    · rw [pow_add]; exact Nat.mul_le_mul_right _ l
+    · have : bitlen x - 1 + k + 1 = bitlen x + k := by omega
+      rw [this, pow_add]; exact Nat.mul_lt_mul_of_pos_right u (two_pow_pos _)
+  rw [this]; omega
+
+theorem bitlen_le_of_lt {x k : Nat} (hx : x ≠ 0) (h : x < 2 ^ k) : bitlen x ≤ k := by
+  rw [bitlen_pos hx]; exact (Nat.log2_lt hx).mpr h
+
+theorem denormLoop_spec : ∀ (fuel x : Nat) (e : Int), 0 < x → x < 2 ^ 63 → 64 - bitlen x ≤ fuel →
+    denormLoop fuel x e = (x * 2 ^ (64 - bitlen x), e - ((64 - bitlen x : Nat) : Int))
+  | 0, x, e, hx, hlt, hf => by
+    have := bitlen_le_of_lt (by omega) hlt; omega
+  | fuel + 1, x, e, hx, hlt, hf => by
+    have hb := bitlen_le_of_lt (by omega) hlt
+    have hb1 : 1 ≤ bitlen x := by rw [bitlen_pos (by omega)]; omega
+    have h2 : bitlen (x * 2 ^ 1) = bitlen x + 1 := bitlen_mul_pow (by omega) 1
+    have e2 : (x <<< 1) % B = x * 2 ^ 1 := by
+      rw [Nat.shiftLeft_eq, Nat.mod_eq_of_lt]; rw [B_eq_two_pow]; omega
+    unfold denormLoop
+    dsimp only
+    rw [e2]
+    by_cases c : x * 2 ^ 1 &&& 2 ^ 63 = 0
+    · have c' := (and_highbit _ (by omega)).mp c
+      rw [if_pos c, denormLoop_spec fuel (x * 2 ^ 1) (e - 1) (by omega) c' (by omega), h2]
+      have hb2 := bitlen_le_of_lt (by omega) c'
+      have : 64 - bitlen x = (64 - (bitlen x + 1)) + 1 := by omega
+      rw [this, pow_succ]
+      refine Prod.ext ?_ ?_
+      · simp only; ring
+      · simp only; omega
+    · rw [if_neg c]
+      have c' : ¬ x * 2 ^ 1 < 2 ^ 63 := fun h => c ((and_highbit _ (by omega)).mpr h)
+      have : bitlen x = 63 := by
+        have : bitlen x = 62 + 1 := bitlen_eq (by omega) (by omega)
+        omega
+      rw [this]; rfl
+
+/-- the first half of `extract_double`: normalised 64-bit mantissa and exponent (before the bias is removed) -/
+def normMant (b : Nat) : Nat × Int :=
+  let manl := 2 ^ 63 ||| ((b / 2 ^ 32 % 2 ^ 20) <<< 43) ||| ((b % 2 ^ 32) <<< 11)
+  if ((expOf b : Nat) : Int) = 0 then denormLoop 64 manl 1 else (manl, ((expOf b : Nat) : Int))
+
+theorem manl_eq (b : Nat) :
+    2 ^ 63 ||| ((b / 2 ^ 32 % 2 ^ 20) <<< 43) ||| ((b % 2 ^ 32) <<< 11) = 2 ^ 63 + manOf b * 2 ^ 11 := by
+  have h1 : (b % 2 ^ 32) <<< 11 < 2 ^ 43 := by rw [Nat.shiftLeft_eq]; omega
+  have h2 : (b / 2 ^ 32 % 2 ^ 20) <<< 43 + (b % 2 ^ 32) <<< 11 < 2 ^ 63 := by
+    rw [Nat.shiftLeft_eq, Nat.shiftLeft_eq]; omega
+  rw [Nat.or_assoc, ← Nat.shiftLeft_add_eq_or_of_lt h1]
+  have := Nat.two_pow_add_eq_or_of_lt h2 1
+  rw [Nat.mul_one] at this
+  rw [← this, Nat.shiftLeft_eq, Nat.shiftLeft_eq]
+  unfold manOf; omega
+
+theorem normMant_spec (b : Nat) (hz : isZero b = false) :
+    ∃ M ef, normMant b = (M, ef) ∧ 2 ^ 63 ≤ M ∧ M < 2 ^ 64 ∧ -51 ≤ ef ∧ ef ≤ 2047 ∧ (ef = expOf b ∨ (expOf b = 0 ∧ ef ≤ 0)) ∧
+      M * 2 ^ (ef + 52).toNat = dblNum b * 2 ^ 64 := by
+  have hm : manOf b < 2 ^ 52 := by unfold manOf; omega
+  have he : expOf b < 2048 := by unfold expOf; omega
+  unfold normMant
+  dsimp only
+  rw [manl_eq]
+  by_cases e0 : ((expOf b : Nat) : Int) = 0
+  · have e0' : expOf b = 0 := by omega
+    have mnz : manOf b ≠ 0 := by
+      unfold isZero at hz; simp at hz
+      unfold expOf at e0'; unfold manOf; omega
+    rw [if_pos e0]
+    obtain ⟨l, u⟩ := bitlen_bounds mnz
+    have hb := bitlen_le_of_lt mnz hm
+    have hb1 : 1 ≤ bitlen (manOf b) := by rw [bitlen_pos mnz]; omega
+    have hdn : dblNum b = manOf b := by unfold dblNum; rw [if_pos e0']
+    have first : (((2 ^ 63 + manOf b * 2 ^ 11) <<< 1) % B) = manOf b * 2 ^ 12 := by
+      rw [Nat.shiftLeft_eq, B_eq_two_pow]; omega
+    have res : denormLoop 64 (2 ^ 63 + manOf b * 2 ^ 11) 1 =
+        (manOf b * 2 ^ (64 - bitlen (manOf b)), (bitlen (manOf b) : Int) - 52) := by
+      unfold denormLoop
+      dsimp only
+      rw [first]
+      by_cases c : manOf b * 2 ^ 12 &&& 2 ^ 63 = 0
+      · have c' := (and_highbit _ (by omega)).mp c
+        have hbl : bitlen (manOf b * 2 ^ 12) = bitlen (manOf b) + 12 := bitlen_mul_pow mnz 12
+        have hb2 := bitlen_le_of_lt (by omega) c'
+        rw [if_pos c, denormLoop_spec 63 _ _ (by omega) c' (by omega), hbl]
+        refine Prod.ext ?_ ?_
+        · simp only
+          have : 64 - bitlen (manOf b) = 12 + (64 - (bitlen (manOf b) + 12)) := by omega
+          rw [this, pow_add]; ring
+        · simp only; omega
+      · rw [if_neg c]
+        have c' : ¬ manOf b * 2 ^ 12 < 2 ^ 63 := fun h => c ((and_highbit _ (by omega)).mpr h)
+        have : bitlen (manOf b) = 51 + 1 := bitlen_eq (by omega) (by omega)
+        rw [this]
+        refine Prod.ext ?_ ?_
+        · simp only
+        · simp only; omega
+    rw [res]
+    refine ⟨_, _, rfl, ?_, ?_, by omega, by omega, Or.inr ⟨e0', by omega⟩, ?_⟩
+    · have p : 2 ^ (bitlen (manOf b) - 1) * 2 ^ (64 - bitlen (manOf b)) = 2 ^ 63 := by rw [← pow_add]; congr 1; omega
+      rw [← p]; exact Nat.mul_le_mul_right _ l
+    · have p : 2 ^ (bitlen (manOf b)) * 2 ^ (64 - bitlen (manOf b)) = 2 ^ 64 := by rw [← pow_add]; congr 1; omega
+      rw [← p]; exact Nat.mul_lt_mul_of_pos_right u (two_pow_pos _)
+    · rw [hdn]
+      have : ((bitlen (manOf b) : Int) - 52 + 52).toNat = bitlen (manOf b) := by omega
+      rw [this, Nat.mul_assoc, ← pow_add]; congr 2; omega
+  · rw [if_neg e0]
+    have e0' : expOf b ≠ 0 := by omega
+    have hdn : dblNum b = (2 ^ 52 + manOf b) * 2 ^ (expOf b - 1) := by unfold dblNum; rw [if_neg e0']
+    refine ⟨_, _, rfl, by omega, by omega, by omega, by omega, Or.inl rfl, ?_⟩
+    rw [hdn]
+    have : (((expOf b : Nat) : Int) + 52).toNat = 11 + (expOf b - 1) + 42 := by omega
+    have t2 : (2 : Nat) ^ 64 = 2 ^ 11 * 2 ^ 11 * 2 ^ 42 := by norm_num
+    rw [this, pow_add, pow_add, t2]
+    have : 2 ^ 63 + manOf b * 2 ^ 11 = (2 ^ 52 + manOf b) * 2 ^ 11 := by ring
+    rw [this]; ring
+
+/-- __gmp_extract_double: for a finite non-zero d, {rp,2}·B^(exp-2) = d exactly (written without negative
+    exponents through d·2^1074 = dblNum), high limb non-zero. -/
+theorem extract_double_eq (b : Nat) (hz : isZero b = false) (hf : expOf b ≠ 2047) :
+    ∃ r0 r1 ex, extract_double b = (r0, r1, ex) ∧ r0 < B ∧ 1 ≤ r1 ∧ r1 < B ∧ -16 ≤ ex ∧ ex ≤ 16 ∧
+      (r1 * B + r0) * 2 ^ (64 * ex + 1074).toNat = dblNum b * 2 ^ 128 ∧ (1023 ≤ expOf b → 1 ≤ ex) ∧ (expOf b < 1023 → ex ≤ 0) := by
+  obtain ⟨M, ef, hn, m1, m2, f1, f2, f3, hv⟩ := normMant_spec b hz
+  have he : expOf b < 2048 := by unfold expOf; omega
+  unfold normMant at hn
+  dsimp only at hn
+  unfold extract_double
+  rw [hz]
+  simp only [Bool.false_eq_true, if_false]
+  rw [hn]
+  dsimp only
+  have hq : (ef - 1022 + 64 * 64) / 64 = (ef + 3074) / 64 := by congr 1; ring
+  have hs : (ef - 1022 + 64 * 64) % 64 = (ef + 3074) % 64 := by congr 1; ring
+  rw [hq, hs]
+  by_cases c : ((ef + 3074) % 64).toNat ≠ 0
+  · rw [if_pos c]
+    refine ⟨_, _, _, rfl, Nat.mod_lt _ B_pos, ?_, ?_, by omega, by omega, ?_, by omega, by omega⟩
+    · rw [Nat.shiftRight_eq_div_pow, Nat.le_div_iff_mul_le (two_pow_pos _)]
+      have : 2 ^ (64 - ((ef + 3074) % 64).toNat) ≤ 2 ^ 63 := Nat.pow_le_pow_right (by decide) (by omega)
+      omega
+    · rw [Nat.shiftRight_eq_div_pow, Nat.div_lt_iff_lt_mul (two_pow_pos _)]
+      have := two_pow_pos (64 - ((ef + 3074) % 64).toNat)
+      calc M < 2 ^ 64 := m2
+        _ = B * 1 := by rw [B_eq_two_pow, Nat.mul_one]
+        _ ≤ B * 2 ^ (64 - ((ef + 3074) % 64).toNat) := Nat.mul_le_mul_left _ this
+    · generalize hsc : ((ef + 3074) % 64).toNat = sc at *
+      have hsc1 : sc < 64 := by omega
+      have hB : B = 2 ^ (64 - sc) * 2 ^ sc := by rw [← pow_add, B_eq_two_pow]; congr 1; omega
+      have split : M >>> (64 - sc) * B + (M <<< sc) % B = M * 2 ^ sc := by
+        rw [Nat.shiftRight_eq_div_pow, Nat.shiftLeft_eq]
+        conv_lhs => rw [hB, Nat.mul_mod_mul_right, ← Nat.mul_assoc, ← Nat.add_mul, Nat.mul_comm (M / _), Nat.div_add_mod]
+      rw [split]
+      have ex1 : (64 * ((ef + 3074) / 64 - 64 + 1) + 1074).toNat + sc = (ef + 52).toNat + 64 := by omega
+      calc M * 2 ^ sc * 2 ^ (64 * ((ef + 3074) / 64 - 64 + 1) + 1074).toNat
+          = M * 2 ^ ((64 * ((ef + 3074) / 64 - 64 + 1) + 1074).toNat + sc) := by rw [pow_add]; ring
+        _ = M * 2 ^ (ef + 52).toNat * 2 ^ 64 := by rw [ex1, pow_add]; ring
+        _ = dblNum b * 2 ^ 128 := by rw [hv]; ring
+  · rw [if_neg c]
+    refine ⟨_, _, _, rfl, B_pos, by omega, by rw [B_eq_two_pow]; exact m2, by omega, by omega, ?_, by omega, by omega⟩
+    have ex1 : (64 * ((ef + 3074) / 64 - 64 + 1 - 1) + 1074).toNat = (ef + 52).toNat := by omega
+    rw [ex1, Nat.add_zero, Nat.mul_right_comm, hv, B_eq_two_pow]; ring
+
+/-! ### mpz_set_d -/
+
+theorem absBits_fields (b : Nat) :
+    expOf (absBits b) = expOf b ∧ manOf (absBits b) = manOf b ∧ isZero (absBits b) = isZero b ∧
+    dblNum (absBits b) = dblNum b ∧ sigOf (absBits b) = 0 := by
+  have e1 : expOf (absBits b) = expOf b := by unfold expOf absBits; omega
+  have e2 : manOf (absBits b) = manOf b := by unfold manOf absBits; omega
+  refine ⟨e1, e2, ?_, ?_, ?_⟩
+  · unfold isZero absBits; simp
+  · unfold dblNum; rw [e1, e2]
+  · unfold sigOf absBits; omega
+
+theorem val_replicate_zero (n : Nat) (l : List Nat) : val (List.replicate n 0 ++ l) = B ^ n * val l := by
+  induction n with
+  | zero => simp
+  | succ k ih => rw [List.replicate_succ, List.cons_append, val_cons, ih, pow_succ]; ring
+
+theorem Limbs_replicate_zero (n : Nat) : Limbs (List.replicate n 0) := by
+  intro x hx; rw [List.mem_replicate] at hx; rw [hx.2]; exact B_pos
+
+theorem dblNum_zero {b : Nat} (h : isZero b = true) : dblNum b = 0 := by
+  unfold isZero at h; simp at h
+  have e1 : expOf b = 0 := by unfold expOf; omega
+  have e2 : manOf b = 0 := by unfold manOf; omega
+  unfold dblNum; rw [if_pos e1, e2]
+
+/-- floor (d) from the extracted double, by the number of integer limbs `ex` -/
+theorem set_d_quot (r0 r1 : Nat) (ex : Int) (dn : Nat) (h0 : r0 < B) (h1' : r1 < B)
+    (hrel : (r1 * B + r0) * 2 ^ (64 * ex + 1074).toNat = dn * 2 ^ 128) :
+    (ex ≤ 0 → dn / 2 ^ 1074 = 0) ∧ (ex = 1 → dn / 2 ^ 1074 = r1) ∧
+    (2 ≤ ex → dn / 2 ^ 1074 = (r1 * B + r0) * B ^ (ex.toNat - 2)) := by
+  have hB : B = 2 ^ 64 := rfl
+  refine ⟨fun c0 => ?_, fun c1 => ?_, fun c2 => ?_⟩
+  · apply Nat.div_eq_of_lt
+    have hlt : r1 * B + r0 < 2 ^ 128 := by
+      have : r1 * B + r0 < B * B := by nlinarith
+      calc r1 * B + r0 < B * B := this
+        _ = 2 ^ 128 := by rw [hB]; norm_num
+    have ht : 2 ^ (64 * ex + 1074).toNat ≤ 2 ^ 1074 := Nat.pow_le_pow_right (by decide) (by omega)
+    have : dn * 2 ^ 128 < 2 ^ 1074 * 2 ^ 128 := by
+      rw [← hrel]
+      calc (r1 * B + r0) * 2 ^ (64 * ex + 1074).toNat ≤ (r1 * B + r0) * 2 ^ 1074 := Nat.mul_le_mul_left _ ht
+        _ < 2 ^ 128 * 2 ^ 1074 := Nat.mul_lt_mul_of_pos_right hlt (two_pow_pos _)
+        _ = 2 ^ 1074 * 2 ^ 128 := Nat.mul_comm _ _
+    exact Nat.lt_of_mul_lt_mul_right this
+  · subst c1
+    have hd : dn = (r1 * B + r0) * 2 ^ 1010 := by
+      have : (64 * (1 : Int) + 1074).toNat = 1010 + 128 := by decide
+      rw [this, pow_add, ← Nat.mul_assoc] at hrel
+      exact (Nat.eq_of_mul_eq_mul_right (two_pow_pos 128) hrel).symm
+    have : (2 : Nat) ^ 1074 = B * 2 ^ 1010 := by rw [hB, ← pow_add]
+    rw [hd, this, Nat.mul_div_mul_right _ _ (two_pow_pos _), Nat.mul_comm r1 B, Nat.add_comm,
+      Nat.add_mul_div_left _ _ B_pos, Nat.div_eq_of_lt h0, Nat.zero_add]
+  · have hd : dn = (r1 * B + r0) * B ^ (ex.toNat - 2) * 2 ^ 1074 := by
+      have : (64 * ex + 1074).toNat = 64 * (ex.toNat - 2) + 1074 + 128 := by omega
+      rw [this, pow_add, pow_add, ← Nat.mul_assoc, ← Nat.mul_assoc, ← Bpow_eq] at hrel
+      exact (Nat.eq_of_mul_eq_mul_right (two_pow_pos 128) hrel).symm
+    rw [hd, Nat.mul_div_cancel _ (two_pow_pos _)]
+
+/-- well-formedness and value of the three shapes mpz_set_d stores -/
+theorem set_d_shapes (r0 r1 : Nat) (h0 : r0 < B) (h1 : 1 ≤ r1) (h1' : r1 < B) (s : Bool) :
+    (Z.wf ⟨0, []⟩ ∧ Z.toInt ⟨0, []⟩ = 0) ∧
+    (Z.wf ⟨if s then -1 else 1, [r1]⟩ ∧ Z.toInt ⟨if s then -1 else 1, [r1]⟩ = (if s then -1 else 1) * (r1 : Int)) ∧
+    (∀ k : Nat, Z.wf ⟨if s then -((k + 2 : Nat) : Int) else ((k + 2 : Nat) : Int), List.replicate k 0 ++ [r0, r1]⟩ ∧
+      Z.toInt ⟨if s then -((k + 2 : Nat) : Int) else ((k + 2 : Nat) : Int), List.replicate k 0 ++ [r0, r1]⟩ =
+        (if s then -1 else 1) * (((r1 * B + r0) * B ^ k : Nat) : Int)) := by
+  refine ⟨⟨⟨rfl, Limbs_nil, fun h => absurd rfl h⟩, rfl⟩, ⟨⟨?_, Limbs_cons.mpr ⟨h1', Limbs_nil⟩, fun _ => ?_⟩, ?_⟩, fun k => ⟨⟨?_, ?_, fun _ => ?_⟩, ?_⟩⟩
+  · cases s <;> rfl
+  · simp; omega
+  · cases s <;> simp [Z.toInt]
+  · simp only [List.length_append, List.length_replicate, List.length_cons, List.length_nil]
+    cases s
+    · simp only [Bool.false_eq_true, if_false]; omega
+    · simp only [if_true]; omega
+  · exact Limbs_append.mpr ⟨Limbs_replicate_zero _, Limbs_cons.mpr ⟨h0, Limbs_cons.mpr ⟨h1', Limbs_nil⟩⟩⟩
+  · rw [List.getLast?_append]; simp; omega
+  · have hval : val (List.replicate k 0 ++ [r0, r1]) = (r1 * B + r0) * B ^ k := by
+      rw [val_replicate_zero]; simp only [val_cons, val_nil]; ring
+    unfold Z.toInt
+    dsimp only
+    rw [hval]
+    cases s
+    · simp only [Bool.false_eq_true, if_false]; rw [if_neg (by omega)]; simp
+    · simp only [if_true]; rw [if_pos (by omega)]; simp
 
 end Mpir.Conv
